@@ -1,4 +1,10 @@
 """C15 - polygonize is lossless: rasterising the polygons gives back the raster."""
+import json
+import os
+import sys
+import threading
+import time
+
 import numpy as np
 from hypothesis import strategies as st
 
@@ -8,8 +14,8 @@ from ..oracles import floodfill as ff
 from ..oracles import topo
 
 PROP = "C15"
-RULE = ("Generator: (a) every raster over a 2-letter alphabet with <= 12 cells (quick) / <= 16 cells (thorough) and every raster over a 3-letter "
-        "alphabet (three values, or two values + a masked cell) with <= 9 cells, for every shape h x w incl. 1xN, Nx1, 1x1, connectivity 4 and 8; "
+RULE = ("Generator: (a) every raster over a 2-letter alphabet with <= 12 cells (quick) / <= 16 cells, one dtype <= 18 cells (thorough) and every raster over a 3-letter "
+        "alphabet (three values, or two values + a masked cell) with <= 9 cells (one variant <= 10 in thorough), for every shape h x w incl. 1xN, Nx1, 1x1, connectivity 4 and 8; "
         "(b) random rasters up to 24x24 from topology constructors (spiral, nested rings, comb/U, serpentine/S, tree, checkerboard, diagonal "
         "stripes, diamonds, holes touching the border, staircase, noise) cropped, flipped, padded and perturbed; well-separated values in "
         "int32/int64/uint32/float32/float64; bool/int/float 0-1 masks at densities none/one/some/half/all-but-one/all/one-whole-value; optional "
@@ -24,7 +30,7 @@ RULE = ("Generator: (a) every raster over a 2-letter alphabet with <= 12 cells (
 ASSUMPTIONS = ["values are well separated (|a-b| > 1e-5*max|v| + 1e-8: float rasters are compared with isclose), finite, no NaN",
                "mask values are 0/1 (False/True) as documented", "numpy-backed 2-D DataArrays, raster and mask of equal shape",
                "transform = 6 finite numbers (a, b, c, d, e, f): x' = a*x + b*y + c, y' = d*x + e*y + f"]
-BUDGET_S = {"quick": 150, "thorough": 900}
+BUDGET_S = {"quick": 240, "thorough": 900}
 
 DTYPES = ["int64", "float64", "int32", "float32", "uint32"]
 POOLS = {
@@ -37,6 +43,42 @@ POOLS = {
 MASK_DTYPES = ["bool", "int64", "float64", "uint8", "int32", "float32"]
 TRANSFORMS = [[1, 0, 0, 0, 1, 0], [1.2, -0.3, 0.2, 1.4, 0.7, 0.1], [30.0, 0.0, 500000.0, 0.0, -30.0, 4000000.0],
               [0, 1, 0, 1, 0, 0], [2.0, 0.0, -5.0, 0.0, 0.5, 7.0], [0.1, 0.0, 0.0, 0.0, 0.1, 0.0], [-1, 0, 10, 0, -1, 10]]
+
+
+# ---------------------------------------------------------------- watchdog
+# A wrong boundary-following start makes _follow loop forever inside a nogil Numba kernel; the runner would only see a
+# hung worker (exit 2, no verdict).  Local work-around: one daemon thread per worker process watches the call in flight;
+# a call that has not returned after HANG_S seconds (normal: < 1 ms) is a failure of the property ("no result"), recorded
+# with its case as a violation; the worker then writes its report and exits, because the kernel cannot be interrupted.
+HANG_S = 120.0
+_WD = {"thread": None, "cur": None}
+
+
+def _wd_loop():
+    while True:
+        time.sleep(2.0)
+        cur = _WD["cur"]
+        if cur is not None and time.time() - cur[0] > HANG_S:
+            t0, ctx, case = cur
+            ctx.evaluations += 1
+            ctx.violations.append({"bucket": "poly.no_result(hang)" + (".w1" if len(case["raster"]["data"][0]) == 1 else ""),
+                                   "msg": "polygonize did not return within %d s (boundary following never closes)" % HANG_S, "case": case})
+            if len(sys.argv) == 7 and sys.argv[1] == PROP:      # running under vlib.worker: argv[6] is the report file
+                with open(sys.argv[6], "w") as f:
+                    json.dump(ctx.to_json(), f, default=str)
+                os._exit(0)
+            os._exit(3)
+
+
+def _guarded(ctx, case, fn):
+    if _WD["thread"] is None:
+        _WD["thread"] = threading.Thread(target=_wd_loop, daemon=True)
+        _WD["thread"].start()
+    _WD["cur"] = (time.time(), ctx, case)
+    try:
+        return fn()
+    finally:
+        _WD["cur"] = None
 
 
 # ---------------------------------------------------------------- oracle
@@ -195,7 +237,7 @@ def body_polygonize(case, ctx):
         r.label("kind=" + case["kind"], "blank=" + case.get("blank", "none"), "layout=" + case.get("layout", "C"))
     lab, ncomp = _topology_labels(r, vals, valid, conn, H, W)
 
-    col, polys = polygonize(raster, mask=mask, connectivity=conn)
+    col, polys = _guarded(ctx, case, lambda: polygonize(raster, mask=mask, connectivity=conn))
     for b, m_ in judge(col, polys, vals, valid, conn, lab=lab, ncomp=ncomp):
         r.fail(b, m_ + "\nraster=%s mask=%s" % (vals, None if mask is None else case["mask"]["data"]))
     if r.fails:
@@ -206,7 +248,7 @@ def body_polygonize(case, ctx):
         r.label("transform")
         as_ = case.get("transform_as", "tuple")
         targ = tuple(t) if as_ == "tuple" else list(t) if as_ == "list" else np.array(t)
-        col2, polys2 = polygonize(raster, mask=mask, connectivity=conn, transform=targ)
+        col2, polys2 = _guarded(ctx, case, lambda: polygonize(raster, mask=mask, connectivity=conn, transform=targ))
         tf = [float(x) for x in t]
         if len(col2) != len(col) or any(not (x == y) for x, y in zip(col, col2)) or len(polys2) != len(polys) or \
                 any(len(p) != len(q) for p, q in zip(polys, polys2)):
@@ -225,8 +267,9 @@ def body_polygonize(case, ctx):
                     i = int(np.nonzero(badx | bady)[0][0])
                     which = "x" if badx[i] else "y"
                     return r.fail("poly.transform.vertex_%s%s" % (which, "" if ri == 0 else ".hole"),
-                                  "transform %s: polygon %d ring %d vertex %d: untransformed %s -> got %s, expected (%r, %r)\nraster=%s" % (
-                                      t, k, ri, i, u[i].tolist(), v[i].tolist(), float(ex[i]), float(ey[i]), vals))
+                                  "transform %s: polygon %d ring %d vertex %d: untransformed %s -> got %s, expected (%r, %r)\nraster=%s mask=%s" % (
+                                      t, k, ri, i, u[i].tolist(), v[i].tolist(), float(ex[i]), float(ey[i]), vals,
+                                      None if mask is None else case["mask"]["data"]))
     return r
 
 
@@ -408,29 +451,29 @@ def fixture_cases():
 def shards(tier):
     out = [("fixtures", lambda ctx: drive_enum(ctx, body_fixture, fixture_cases(), space="tests/test_polygonize.py fixtures", size=20))]
     if tier == "thorough":
-        nrand, per, side = 16, 2000, 24
-        plan = [("bin_i64", 16, 8), ("bin_f64", 16, 8), ("bin_u32", 12, 1), ("ter_i32", 9, 2), ("ter_mask_f32", 9, 2),
+        nrand, per, side = 20, 2000, 24
+        plan = [("bin_i64", 18, 16), ("bin_f64", 16, 8), ("bin_u32", 12, 1), ("ter_i32", 10, 4), ("ter_mask_f32", 9, 2),
                 ("ter_mask_i64", 9, 2), ("ter_f64", 9, 2)]
     else:
-        nrand, per, side = 8, 400, 24
+        nrand, per, side = 10, 400, 24
         plan = [("bin_i64", 12, 2), ("bin_f64", 12, 2), ("ter_i32", 9, 4), ("ter_mask_f32", 9, 4)]
     lay = ["F", "view", "C"]
     for i in range(nrand):
-        dts = [DTYPES[i % 5]] if i % 2 else [DTYPES[i % 5], DTYPES[(i + 2) % 5]]
+        dts = [DTYPES[i % 5]]       # one value dtype per shard: every (dtype, mask dtype, transform) signature costs ~2 s of JIT
         mdt = MASK_DTYPES[i % len(MASK_DTYPES)]
         layouts = ("C", "C", lay[i % 3])
         out.append(("rand#%d" % i, lambda ctx, dts=dts, mdt=mdt, layouts=layouts, it=(i % 4 == 3): drive_hypothesis(
             ctx, body_polygonize, poly_cases(side, dts, mdt, it, layouts), per, name="rand")))
     for variant, max_cells, k in plan:
-        bins = topo.split_chunks(topo.enum_chunks(len(VARIANTS[variant][1]), max_cells), k)
+        bins = topo.split_chunks(topo.enum_chunks(len(VARIANTS[variant][1]), max_cells, chunk=(1 << 14) if max_cells <= 12 else (1 << 16)), k)
         for i, b in enumerate(bins):
             if b:
                 out.append(("enum_%s_le%d#%d" % (variant, max_cells, i), _enum_shard(variant, b)))
     return out
 
 
-LEVEL_TEXT = ("Bounded-exhaustive plus randomised search: every 2-letter raster of every shape with <= 12 cells (quick) / <= 16 cells (thorough) and every "
-              "3-letter raster (incl. 'masked' as a letter) with <= 9 cells, both connectivities, plus thousands of random rasters up to 24x24 built from "
+LEVEL_TEXT = ("Bounded-exhaustive plus randomised search: every 2-letter raster of every shape with <= 12 cells (quick) / <= 16 cells, one dtype <= 18 cells (thorough) and every "
+              "3-letter raster (incl. 'masked' as a letter) with <= 9 cells (one variant <= 10 in thorough), both connectivities, plus thousands of random rasters up to 24x24 built from "
               "spiral / ring / comb / serpentine / checkerboard / diagonal / hole constructors over five dtypes, six mask dtypes and densities, affine "
               "transforms and layouts; every result is rasterised back (even-odd test of each cell centre) and compared with a flood-fill partition, "
               "ring orientation, corner/axis-parallel predicates and shoelace areas. Decides the property inside the enumerated spaces, samples it outside.")
